@@ -277,6 +277,37 @@ def load_known():
     return d.get('findings', [])
 
 
+CORPUS_DIR = os.path.join(VERIF, 'corpus')
+
+
+def load_corpus(pid):
+    """the committed regression corpus of a property: inputs on which an earlier version of the code, or a seeded
+    change, broke the property (one JSON object per line: {"case": ..., "from": ...}); they run before the generated cases"""
+    out = []
+    try:
+        with open(os.path.join(CORPUS_DIR, pid + '.jsonl')) as f:
+            for line in f:
+                line = line.strip()
+                if line:
+                    out.append(json.loads(line))
+    except FileNotFoundError:
+        pass
+    return out
+
+
+def _one_per_key(failures, skip, limit=5):
+    """one further failing input for each other distinct failure key (for the replay file)"""
+    out, seen = [], {skip}
+    for f in failures:
+        if f.key in seen:
+            continue
+        seen.add(f.key)
+        out.append({'key': f.key, 'clause': f.clause, 'detail': f.detail, 'case': f.case})
+        if len(out) >= limit:
+            break
+    return out
+
+
 def lake_build(targets):
     with Lock():
         rc, out = sh(['lake', 'build'] + targets, cwd=LEAN_DIR, timeout=3000)
@@ -391,6 +422,11 @@ def run_check(prop_cls, tier, seed, replay=None):
         cases = [prop.revive(c) for c in cases]
     else:
         cases = list(prop.corpus())
+        for ent in load_corpus(pid):
+            try:
+                cases.append(prop.revive(ent['case']))
+            except Exception as e:   # noqa
+                notes.append('corpus entry from %s not usable (%r)' % (ent.get('from'), e))
         n_corpus = len(cases)
         for i in range(prop.n):
             cases.append(prop.gen_case(prop.rng, i))
@@ -522,6 +558,8 @@ def run_check(prop_cls, tier, seed, replay=None):
                        'clause': f0.clause, 'key': f0.key, 'detail': f0.detail,
                        'case': f0.case,
                        'distinct_new_keys': sorted({f.key for f in new_failures}),
+                       'failures': _one_per_key(new_failures, f0.key),
+                       'first_disagreement': disagreements[0].to_json() if disagreements else None,
                        'broken': broken}, fh, indent=1, default=str)
         lines.append('VIOLATION property=%s replay=%s' % (pid, os.path.relpath(replay_path, VERIF)))
         status = 1
@@ -569,6 +607,7 @@ def run_check(prop_cls, tier, seed, replay=None):
             'oracle_failures_total': len(failures),
             'oracle_failures_known': len(failures) - len(new_failures),
             'known_finding_keys_hit': sorted(reported_known),
+            'regression_corpus_cases': n_corpus if not replay else 0,
             'distribution': prop.stats,
             'notes': notes, 'proof_or_tie_broken': broken,
         },
